@@ -196,3 +196,59 @@ pub fn near(a: &str, b: &str) -> bool {
 	}
 	prev[b.len()] <= 2
 }
+
+
+/// Long values (every length 1..=300) that are equal once decoded, or differ in exactly their last
+/// character, for every comparable kind that can hold an escape; for lengths 100 and 290 the
+/// difference at every position. (Comparison code with a bounded scratch buffer, a block loop or
+/// a length-dependent fast path.)
+pub fn long_near_misses(shard: usize, nshards: usize, f: &mut dyn FnMut(Triple, bool) -> bool) -> Vec<&'static str> {
+	let mut i = 0usize;
+	let mut emit = |a: &str, b: &str, c: &str, f: &mut dyn FnMut(Triple, bool) -> bool| -> bool {
+		let shapes: [(Kind, fn(&str) -> String); 8] = [
+			(Kind::Segment, |x| x.to_string()),
+			(Kind::Path, |x| format!("/p/{x}/q")),
+			(Kind::Query, |x| x.to_string()),
+			(Kind::Fragment, |x| x.to_string()),
+			(Kind::Host, |x| x.to_string()),
+			(Kind::UserInfo, |x| x.to_string()),
+			(Kind::Reference, |x| format!("//u@{x}:1/{x}?{x}#{x}")),
+			(Kind::Full, |x| format!("s:/{x}")),
+		];
+		for (kind, shape) in shapes {
+			i += 1;
+			if i % nshards != shard {
+				continue;
+			}
+			let fam = if i % 2 == 0 { Fam::Uri } else { Fam::Iri };
+			if !f(Triple { fam, kind, a: shape(a), b: shape(b), c: shape(c) }, true) {
+				return false;
+			}
+		}
+		true
+	};
+	for len in 1..=300usize {
+		let plain = format!("A{}", "a".repeat(len));
+		let enc = format!("%41{}", "a".repeat(len));
+		let mut last = enc.clone();
+		last.pop();
+		last.push('b');
+		let enc_last = format!("%41{}%61", "a".repeat(len - 1));
+		if !emit(&enc, &plain, &last, f) || !emit(&plain, &enc_last, &enc, f) {
+			return vec![];
+		}
+	}
+	for len in [100usize, 290] {
+		let enc = format!("%41{}", "a".repeat(len));
+		let plain = format!("A{}", "a".repeat(len));
+		for j in 0..len {
+			let mut other: Vec<u8> = enc.clone().into_bytes();
+			other[3 + j] = b'b';
+			let other = String::from_utf8(other).unwrap();
+			if !emit(&enc, &other, &plain, f) {
+				return vec![];
+			}
+		}
+	}
+	vec!["long values (every length 1..=300) equal once decoded or differing only in the last character, as segment, path, query, fragment, host, user info, reference and full value; for lengths 100 and 290 the difference at every position"]
+}
